@@ -75,7 +75,7 @@ def run(ctx: core.Ctx):
         g = fam2[(j + ctx.seed) % len(fam2)]
         evs = []
         ev = sd.make_ev(evs, ids, base + j, g)
-        s = sd.new_event(ev, o, g)
+        s = sd.new_event(ev, o, g, **({"unsorted_flag": [np.False_, 0][j % 2]} if j % 4 == 1 else {}))
         if s is not None:
             for k, m in enumerate(sd.METRICS):
                 if sd.rel_scores(o, m):
